@@ -424,8 +424,8 @@ class Attr(CodegenModel):
 
     @property
     def native_types(self) -> list[type]:
-        """Return a list of all the builtin data types."""
-        return list(set(self.get_native_types()))
+        """Return a list of all the builtin data types, in declared order."""
+        return list(dict.fromkeys(self.get_native_types()))
 
     @property
     def user_types(self) -> Iterator[AttrType]:
